@@ -20,7 +20,8 @@ RULE = ("replay: one generated all-module history (5 pools, 14 providers incl. a
         "fails) plus three directed histories (de-whitelisted "
         "claimants with a three-way power tie; genesis providers without accounts paid by LPPD / by the epoch hook), "
         "each executed N times (N = 8 quick, 64 thorough) in fresh application instances, half of the re-executions in "
-        "separate OS processes, in three modes that must agree: plain, twin (serves Simulate of admin edits of shared objects, gRPC "
+        "separate OS processes whose ENVIRONMENT differs (profiles inherited / far: TZ=Pacific/Kiritimati, GOMAXPROCS=1, tr_TR locale, other HOME/HOSTNAME/USER/"
+        "TMPDIR/cwd / utc / west: TZ=America/Anchorage, de_DE locale; every second in-process execution runs with time.Local = +14:00), in three modes that must agree: plain, twin (serves Simulate of admin edits of shared objects, gRPC "
         "queries and CheckTx of the next block between blocks), restarted (new app object on the same DB twice on the way); the history "
         "also has rejected two-message transactions whose FIRST message edits a shared decoded object (existing registry entry replaced, "
         "deregister, set registry, admin removal, whitelist removal, policy update) followed by a failing send; stateless-invalid transactions are included; one `chk allEqual` line per block (N app hashes), per block (N EndBlock validator/"
@@ -31,6 +32,9 @@ TRUSTED_BASE = [
     "fact translator extract/replay/pkgvars.go (go/types): package-level variables written outside init (assignment to the variable / its "
     "fields / elements, address taken, method called); audited list Sif.Spec.C09.auditedPkgVars — state kept behind pointers held in "
     "struct fields of keepers (not package-level) is NOT seen by this pass, only by the twin/restart re-executions",
+    "environment facts (in mapranges.go): time.Unix/UnixMilli/UnixMicro/Local/LoadLocation/Parse*, rendering or re-zoning of time.Time values "
+    "(String/Format/Local/In/…), os.Getenv/Hostname/Getwd/UserHomeDir/TempDir, runtime.NumCPU/GOMAXPROCS/GOOS/GOARCH per function, audited in "
+    "Sif.Spec.C09.allowedUses; provenance of a rendered time (block header vs. locally built) is judged by the reviewer, not by the pass",
     "fact translator extract/replay/mapranges.go (go/types via golang.org/x/tools/go/packages v0.29.0): its notion of map-typed "
     "range operand, of float-typed expression, and its exclusion rule (directories client, simulation, test, testutil, "
     "testhelpers, mock(s); files *_test.go, test_*.go, *_simulation.go)",
